@@ -65,6 +65,11 @@ def gen(tier, rng):
         out.append("cs.fromstr %s -" % cs)
         for t in ("é", "abc", "123 456", "a b", "€", "😀"):
             out.append("cs.fromstr %s %s" % (cs, hx(t.encode())))
+    # truncated encodings of this property's typed values (scripts.truncated_leaves)
+    import scripts as _scripts
+    for (_m, _d, _sc) in _scripts.truncated_leaves([0x0c, 0x12, 0x13, 0x16]):
+        for _src in ("slice", "stingy"):
+            out.append("run %s %s %s %s" % (_m, _src, hx(_d), _sc))
     return out
 
 def nontrivial(req, ans):
